@@ -49,7 +49,10 @@ AllActsOf(st) ==
        \cup [op : {"srid"}, to : Targets(st), srid : {4326}]
        \cup (IF Rich THEN [op : {"reserve"}, to : Targets(st)] ELSE {})
        \cup [op : {"setcoords"}, to : Targets(st), v : SetVals(k, s)]
-       \cup {[op |-> "newflat", to |-> t, v |-> v, rep |-> Deflate(k, v)] : t \in Targets(st), v \in SetVals(k, s)}
+       \* room: the slices handed to the constructor have capacity left behind their length (a builder that reuses buffers;
+       \* with the empty value: New<Kind>Flat(l, buf[:0], ends[:0])) - the object owns that room from then on
+       \cup {[op |-> "newflat", to |-> t, v |-> v, rep |-> Deflate(k, v), room |-> FALSE] : t \in Targets(st), v \in SetVals(k, s)}
+       \cup {[op |-> "newflat", to |-> t, v |-> v, rep |-> Deflate(k, v), room |-> TRUE] : t \in Targets(st), v \in SetVals(k, s) \cup {EmptyVal(k)}}
 
 ActsOf(st) == {a \in AllActsOf(st) : a.op \in OpsUsed}
 
